@@ -10,7 +10,7 @@ static int diag_seen;
 #include "parse.c"
 #include "penv.h"
 
-struct IN_t { unsigned char kl, kr, sub, entry; int enumval; } IN;
+struct IN_t { unsigned char kl, kr, sub, entry, nest; int enumval; } IN;
 struct IN_t nondet_IN(void);
 
 static Type T_struct = {.kind = TY_STRUCT, .size = 8, .align = 4};
@@ -89,4 +89,38 @@ void h_primary_ident(void) {
   else if (IN.entry == 3) VASSERT(n->kind == ND_NUM && n->val == IN.enumval, "an enumeration constant yields its value");
   else VASSERT(0, "a typedef name / undeclared name as an operand must be diagnosed, not turned into a node");
   VCOVER();
+}
+
+
+// Termination with a usable bound: a declarator nested in n pairs of parentheses (valid C for any n) is parsed with
+// work LINEAR in n. The real declarator() runs on `( ( ... x ... ) ) ;` for a symbolic n <= 7; every entry into
+// declarator() calls pointers() exactly once, so the number of pointers() calls (counted by a pass-through stub,
+// --replace-calls) measures the work: n + 1 for one parse per level, 2^(n+1) - 1 when each level is parsed twice.
+static int pointers_calls;
+Type *stub_pointers(Token **rest, Token *tok, Type *ty) { pointers_calls++; *rest = tok; return ty; }
+void h_declarator_nesting(void) {
+  HAVOC_IN();
+  __CPROVER_assume(IN.nest <= 7);
+  static Token toks[17];
+  static char *lp = "(", *rp = ")", *id = "x", *semi = ";";
+  for (int n = 0; n <= 7; n++)
+    if (IN.nest == n) {                       // concrete token list inside each case
+      int k = 0;
+      for (int i = 0; i < n; i++) { toks[k].kind = TK_PUNCT; toks[k].loc = lp; toks[k].len = 1; k++; }
+      toks[k].kind = TK_IDENT; toks[k].loc = id; toks[k].len = 1; k++;
+      for (int i = 0; i < n; i++) { toks[k].kind = TK_PUNCT; toks[k].loc = rp; toks[k].len = 1; k++; }
+      toks[k].kind = TK_PUNCT; toks[k].loc = semi; toks[k].len = 1; k++;
+      toks[k].kind = TK_EOF; toks[k].loc = ""; toks[k].len = 0;
+      for (int i = 0; i < k; i++) toks[i].next = &toks[i + 1];
+      Token *rest = NULL;
+      Type *ty = NULL;
+      pointers_calls = 0;
+      TRY(ty = declarator(&rest, &toks[0], ty_int));
+      VASSERT(!verif_diag, "a parenthesized declarator is accepted");
+      VASSERT(ty && ty->kind == TY_INT && ty->name == &toks[n], "the declared name and type are found");
+      VASSERT(rest == &toks[2 * n + 1], "the declarator ends before the `;`");
+      VASSERT(pointers_calls <= 2 * n + 2, "work linear in the nesting depth (each level is parsed once)");
+      VCOVER();
+      return;
+    }
 }
